@@ -148,6 +148,8 @@ class D(Driver):
             pass
         if not stage.get("before") or stage["before"] == stage["after"]:
             return None
+        if stage.get("stroke_junk"):
+            return None  # something else than the known mechanism feeds the late pruning
         try:
             before_groups = [e for e in PGm.validate(stage["before"], 9, True) if e[0] == "group_children"]
             after_groups = [e for e in PGm.validate(out1, nd, True) if e[0] == "group_children"]
